@@ -514,13 +514,18 @@ C10_IrrigationAmount == (AfterInputs /\ Ev.irrigated) => Ev.effirr = (Ev.irrmm \
 \* fertilisation: slot 0 = residues of the initial crop on the day after the start, then the scheduled events once,
 \* in order, the day after their date (the second of two on one date a day later)
 FertExec == SelectSeq(hist.fert, LAMBDA e : e[2] > 0)          \* executed schedule slots (slot index > 0)
+\* slot k of the array as read = the k-th event of the file that is not dated before the start.  An event dated ON the
+\* start date collides with the residue pseudo-event of slot 0 (same date): it is moved like the second of a same-day pair;
+\* the statement is silent about it, so it is not judged itself - but it occupies its slot and everything after it is judged
+FertKept == SelectSeq(Gen.fert, LAMBDA e : e[1] >= Cfg.begin)
 C10_Fertilisation == (AtRunEnd /\ Ev.ok /\ HasSched /\ ~Cfg.autoFert) =>
-   LET exp == SelDates(Gen.fert) IN
-   /\ Len(FertExec) = Len(exp)
-   /\ \A i \in 1..Len(exp) : i <= Len(FertExec) =>
-         /\ FertExec[i][2] = i                                   \* schedule order (slot i of the array as read)
-         /\ FertExec[i][1] >= exp[i][1] /\ FertExec[i][1] <= exp[i][1] + 2
-         /\ (FertExec[i][1] = exp[i][1] + 2 => i > 1 /\ exp[i - 1][1] = exp[i][1])
+   /\ \A i \in 1..(Len(FertExec) - 1) : FertExec[i][2] < FertExec[i + 1][2]          \* each slot at most once, in schedule order
+   /\ \A i \in 1..Len(FertExec) : FertExec[i][2] <= Len(FertKept)                    \* nothing that was not scheduled
+   /\ \A k \in 1..Len(FertKept) : InDom(FertKept[k][1]) =>
+         \E i \in 1..Len(FertExec) :
+            /\ FertExec[i][2] = k
+            /\ FertExec[i][1] >= FertKept[k][1] /\ FertExec[i][1] <= FertKept[k][1] + 2
+            /\ (FertExec[i][1] = FertKept[k][1] + 2 => k > 1 /\ FertKept[k - 1][1] = FertKept[k][1])
 \* ... in full: the amounts read for slot i are the table amounts of event i (quantity x table x global factor)
 C10_FertAmounts == (l > 1 /\ Ev.ev = "run.config" /\ HasSched /\ ~Ev.autoFert) =>
    LET kept == SelectSeq(Gen.fert, LAMBDA e : e[1] >= Ev.begin) IN
@@ -529,12 +534,18 @@ C10_FertAmounts == (l > 1 /\ Ev.ev = "run.config" /\ HasSched /\ ~Ev.autoFert) =
        /\ LAbsLe(LSub(Ev.NDIR[i + 1], x.ndir), TolN) /\ LAbsLe(LSub(Ev.NH4N[i + 1], x.nh4), TolN)
        /\ LAbsLe(LSub(Ev.NSAS[i + 1], x.nfast), TolN) /\ LAbsLe(LSub(Ev.NLAS[i + 1], x.nslow), TolN)
 \* tillage: once, in order, the day after its date
+\* (slot k = the k-th event of the file that is not dated before the start, 0-based in hist.till; events dated in the last
+\*  two days of the run occupy their slot but are not judged themselves - a run that was silently extended past its
+\*  configured end, finding H9 of C05, may or may not reach them)
+TillKept == SelectSeq(Gen.till, LAMBDA e : e[1] >= Cfg.begin)
 C10_Tillage == (AtRunEnd /\ Ev.ok /\ HasSched) =>
-   LET exp == SelDates(Gen.till) IN
-   /\ Len(hist.till) = Len(exp)
-   /\ \A i \in 1..Len(exp) : i <= Len(hist.till) =>
-         /\ hist.till[i][1] >= exp[i][1] /\ hist.till[i][1] <= exp[i][1] + 2
-         /\ (hist.till[i][1] = exp[i][1] + 2 => i > 1 /\ exp[i - 1][1] = exp[i][1])
+   /\ \A i \in 1..(Len(hist.till) - 1) : hist.till[i][2] < hist.till[i + 1][2]
+   /\ \A i \in 1..Len(hist.till) : hist.till[i][2] + 1 <= Len(TillKept)
+   /\ \A k \in 1..Len(TillKept) : InDom(TillKept[k][1]) =>
+         \E i \in 1..Len(hist.till) :
+            /\ hist.till[i][2] + 1 = k
+            /\ hist.till[i][1] >= TillKept[k][1] /\ hist.till[i][1] <= TillKept[k][1] + 2
+            /\ (hist.till[i][1] = TillKept[k][1] + 2 => k > 1 /\ TillKept[k - 1][1] = TillKept[k][1])
 \* sowing and harvest of the rotation entries inside the period (fixed dates)
 C10_SowHarvest == (AtRunEnd /\ Ev.ok /\ HasSched /\ ~Cfg.autoMan /\ ~Cfg.autoHar) =>
    LET exp == SelectSeq(Tail(Gen.rot), LAMBDA e : e[2] <= Cfg.ende) IN
